@@ -548,6 +548,9 @@ type pkgConfig struct {
 	files    map[string]string // relative path -> content ("" = delete)
 	mod      bool              // directory has a go.mod
 	expectOK bool
+	// sameAsValid: the sources are those of "valid" (only left-over generated
+	// files differ), so the three generated files must equal what "valid" gets
+	sameAsValid bool
 }
 
 const pkgLox = "@lexer\nNUM = [0-9]+\nADD = '+'\n@frag [ \\n]+ @discard\n@parser\n@start e = e ADD NUM | NUM\n"
@@ -574,6 +577,9 @@ func c12PackageMenu() []pkgConfig {
 		return pkgConfig{name: name, files: files, mod: true}
 	}
 	rep := func(old, new string) string { return strings.Replace(pkgUserOK, old, new, 1) }
+	stale := func(name string, files map[string]string) pkgConfig {
+		return pkgConfig{name: name, files: files, mod: true, expectOK: true, sameAsValid: true}
+	}
 	return []pkgConfig{
 		ok("valid", map[string]string{"g.lox": pkgLox, "user.go": pkgUserOK}),
 		{name: "no-go-mod", files: map[string]string{"g.lox": pkgLox, "user.go": pkgUserOK}, mod: false},
@@ -601,13 +607,18 @@ func c12PackageMenu() []pkgConfig {
 		bad("action-variadic", map[string]string{"g.lox": pkgLox, "user.go": rep("func (p *parser) on_e__2(a Token) any                 { return nil }", "func (p *parser) on_e__2(a ...Token) any { return nil }")}),
 		ok("token-alias-to-struct", map[string]string{"g.lox": pkgLox, "user.go": rep("type Token struct {\n\tType int\n}\n", "type tok struct{ Type int }\n\ntype Token = tok\n")}),
 		ok("token-is-int", map[string]string{"g.lox": pkgLox, "user.go": rep("type Token struct {\n\tType int\n}\n", "type Token int\n")}),
-		ok("stale-generated-files", map[string]string{"g.lox": pkgLox, "user.go": pkgUserOK, "parser.gen.go": "package p\n\nfunc broken( {\n", "lexer.gen.go": "package p\nvar _x = \n"}),
+		stale("stale-generated-files", map[string]string{"g.lox": pkgLox, "user.go": pkgUserOK, "parser.gen.go": "package p\n\nfunc broken( {\n", "lexer.gen.go": "package p\nvar _x = \n"}),
 		ok("stale-base-other-package", map[string]string{"g.lox": pkgLox, "user.go": pkgUserOK, "zbase.gen.go": ""}),
-		ok("truncated-base", map[string]string{"g.lox": pkgLox, "user.go": pkgUserOK, "base.gen.go": "package p\n\nconst (\n\tEOF int = 0\n"}),
+		stale("truncated-base", map[string]string{"g.lox": pkgLox, "user.go": pkgUserOK, "base.gen.go": "package p\n\nconst (\n\tEOF int = 0\n"}),
 		bad("conflicts", map[string]string{"g.lox": "@lexer\nA = 'a'\n@parser\n@start e = e e | A\n", "user.go": pkgUserOK}),
 		bad("lox-syntax-error", map[string]string{"g.lox": "@lexer\nA = = 'a'\n", "user.go": pkgUserOK}),
 		bad("lox-is-directory", map[string]string{"g.lox/x": "", "user.go": pkgUserOK}),
 		bad("package-main-mismatch", map[string]string{"g.lox": pkgLox, "user.go": pkgUserOK, "other.go": "package q\n"}),
+		// left-over generated files that are LONGER than what this run writes
+		stale("stale-longer-comment-tail", map[string]string{"g.lox": pkgLox, "user.go": pkgUserOK,
+			"base.gen.go": pkgFiller("p", 4000, true), "lexer.gen.go": pkgFiller("p", 4000, true), "parser.gen.go": pkgFiller("p", 4000, true)}),
+		stale("stale-longer-parser-only", map[string]string{"g.lox": pkgLox, "user.go": pkgUserOK, "parser.gen.go": pkgFiller("p", 4000, false)}),
+		stale("stale-longer-lexer-only", map[string]string{"g.lox": pkgLox, "user.go": pkgUserOK, "lexer.gen.go": pkgFiller("p", 4000, true)}),
 		ok("onbounds", map[string]string{"g.lox": pkgLox, "user.go": pkgUserOK + "\nfunc (p *parser) _onBounds(r any, b, e Token) {}\n"}),
 		bad("onbounds-wrong-signature", map[string]string{"g.lox": pkgLox, "user.go": pkgUserOK + "\nfunc (p *parser) _onBounds(r any) {}\n"}),
 		ok("import-stdlib", map[string]string{"g.lox": pkgLox, "user.go": strings.Replace(rep("func (p *parser) on_e__2(a Token) any                 { return nil }", "func (p *parser) on_e__2(a Token) any { return strings.ToUpper(\"x\") }"), "package p\n", "package p\n\nimport \"strings\"\n", 1)}),
@@ -615,9 +626,27 @@ func c12PackageMenu() []pkgConfig {
 	}
 }
 
+// pkgFiller is a well-formed Go file of about n lines that a run of lox must
+// replace completely: a comment tail of lines of different lengths (so that a
+// file overwritten in place without being shortened does not end on a line
+// boundary), or declarations.
+func pkgFiller(pkg string, n int, comments bool) string {
+	var b strings.Builder
+	b.WriteString("package " + pkg + "\n\n")
+	for i := 0; i < n; i++ {
+		if comments {
+			b.WriteString("// filler " + strings.Repeat("x", i%7) + "\n")
+		} else {
+			fmt.Fprintf(&b, "var _filler%d = %d\n", i, i)
+		}
+	}
+	return b.String()
+}
+
 func c12Packages(c *mc.Ctx, ws *pipe.Workspace) {
 	bin := filepath.Join(ws.Root, "lox.bin")
 	built := false
+	var validOut map[string]string // generated files of the "valid" configuration, on demand
 	for i, pc := range c12PackageMenu() {
 		if !c.Mine(int64(i)) {
 			continue
@@ -683,6 +712,34 @@ func c12Packages(c *mc.Ctx, ws *pipe.Workspace) {
 			report("panic", "lox panicked")
 			continue
 		}
+		if exit == 0 && gen == 3 && pc.sameAsValid {
+			if validOut == nil {
+				validOut = map[string]string{}
+				vdir := filepath.Join(ws.Root, "pkgvalid")
+				os.RemoveAll(vdir)
+				os.MkdirAll(vdir, 0o777)
+				for n, t := range c12PackageMenu()[0].files {
+					os.WriteFile(filepath.Join(vdir, n), []byte(t), 0o666)
+				}
+				os.WriteFile(filepath.Join(vdir, "go.mod"), []byte("module example.com/p\n\ngo 1.23\n"), 0o666)
+				vc := exec.Command(bin, ".")
+				vc.Dir = vdir
+				if out, err := vc.CombinedOutput(); err != nil {
+					c.Stats.HarnessError("the valid package configuration failed: %v %s", err, firstLine(string(out)))
+				}
+				for _, f := range []string{"base.gen.go", "lexer.gen.go", "parser.gen.go"} {
+					b, _ := os.ReadFile(filepath.Join(vdir, f))
+					validOut[f] = string(b)
+				}
+			}
+			for _, f := range []string{"base.gen.go", "lexer.gen.go", "parser.gen.go"} {
+				b, _ := os.ReadFile(filepath.Join(dir, f))
+				if string(b) != validOut[f] {
+					report("partial-output", fmt.Sprintf("exit 0, but %s is not the generated output (a left-over file was not replaced completely): %s", f, pipe.FirstDiff(string(b), validOut[f])))
+					break
+				}
+			}
+		}
 		switch {
 		case exit == 0 && gen != 3:
 			report("partial-output", fmt.Sprintf("exit 0 with %d of 3 complete generated files", gen))
@@ -734,7 +791,7 @@ func init() {
 		Level: "fault_enumeration",
 		Rule: "deviation-bounded exploration around valid inputs (bound 1): seeds = well-formed specifications (C17's bases, a tiny expression grammar, the bundled examples; thorough: lox's own parser.lox and all examples); at EVERY token position: delete, duplicate, transpose, replace by / insert each lexeme of a menu of ~75 extremes (every keyword, every punctuation, huge and zero numbers, degenerate literals and classes, reserved and ill-formed names); every declaration line and every @mode block deleted, repeated in place / at the end, moved to the end / top, copied into each other file of the specification; every byte-level truncation; every single-byte substitution by 12 special bytes; bound 2: every pair of {delete, replace by, insert} deviations at two different tokens of the tiny expression grammar from a reduced menu of 6 (thorough: 19) lexemes; " +
 			"each case runs the whole pipeline in process under recover() (front end, then - with action methods derived from the grammar object lox built - AssignActions and EmitParser); oracle: returns; success => three generated files that parse and type-check with the package; failure => at least one diagnostic; never a panic. " +
-			"Go-package axis: a finite menu of ~35 package configurations (missing/ill-typed/ill-shaped packages, stale generated files, no go.mod) run through the real binary; non-trivial = one mutation site or package configuration",
+			"Go-package axis: a finite menu of ~40 package configurations (missing/ill-typed/ill-shaped packages, stale / truncated / longer left-over generated files which must be replaced completely, no go.mod) run through the real binary; non-trivial = one mutation site or package configuration",
 		Assume: []string{
 			"hangs: no exact criterion inside the generator; a 120 s per-case watchdog ends the shard as inconclusive (exit 0, exhaustive:false), never a violation",
 			"bound 1 only: inputs at distance >= 2 from a seed are not explored",
